@@ -48,12 +48,14 @@ func checkC19(c *Ctx) {
 		c.Undecided("C19.R1", "transport.(*Server).readPacket", "function not found")
 		return
 	}
-	c.Analysed(FuncName(rp))
-	mf := ComputeMustFacts(rp)
 	mtHello := pkgConst(P, "transport", "MessageTypeClientHello")
 	mtAck := pkgConst(P, "transport", "MessageTypeClientAck")
 	mtAuth := pkgConst(P, "transport", "MessageTypeClientAuth")
 	mtHidden := pkgConst(P, "transport", "MessageTypeClientRequestHidden")
+	// the dispatcher: readPacket, or the local helper of it that holds the switch on the message type
+	rp = dispatcherOf(P, rp, []int64{mtHello, mtAck, mtAuth, mtHidden})
+	c.Analysed(FuncName(rp))
+	mf := ComputeMustFacts(rp)
 
 	// ---- R1
 	serverT := P.Pkg("transport").Pkg.Scope().Lookup("Server")
@@ -646,11 +648,21 @@ func c19Cookie(c *Ctx) {
 		}
 	}
 	if rp := P.Func("transport", "(*Server).readPacket"); rp != nil {
+		rp = dispatcherOf(P, rp, []int64{pkgConst(P, "transport", "MessageTypeClientHello"), pkgConst(P, "transport", "MessageTypeClientAck"), pkgConst(P, "transport", "MessageTypeClientAuth"), pkgConst(P, "transport", "MessageTypeClientRequestHidden")})
+		nAck := 0
 		for _, cs := range callSitesIn(rp, false, hopID("transport", "Server", "readPQClientAck")) {
+			nAck++
 			args := cs.Common().Args
 			okv := false
 			if len(args) == 3 {
-				if ex, ok := strip(args[2]).(*ssa.Extract); ok && ex.Index == 3 {
+				// a dispatcher cut out of readPacket receives the address as a parameter: look at its call site
+				addr := strip(args[2])
+				if k := paramIndex(rp, addr); k >= 0 {
+					if edges := P.Callers(rp); len(edges) == 1 && edges[0].Site != nil && k < len(edges[0].Site.Common().Args) {
+						addr = strip(edges[0].Site.Common().Args[k])
+					}
+				}
+				if ex, ok := addr.(*ssa.Extract); ok && ex.Index == 3 {
 					if call, ok := ex.Tuple.(*ssa.Call); ok && calleeID(call) == hopID("transport", "UDPLike", "ReadMsgUDP") {
 						okv = true
 					}
@@ -658,6 +670,7 @@ func c19Cookie(c *Ctx) {
 			}
 			c.Check(okv, "C19.R3", FuncName(rp)+"#source-addr", P.InstrPos(cs), "address = source of this datagram (ReadMsgUDP)", "readPQClientAck is not given the source address reported by ReadMsgUDP for this datagram")
 		}
+		c.Floor("C19.R3", "readPQClientAck calls in the dispatcher", nAck, 1)
 	}
 	// who touches Server.cookieKey
 	writers := map[string]bool{"transport.(*Server).init": true}
@@ -691,7 +704,22 @@ func c19Cookie(c *Ctx) {
 				}
 			}
 			fnName := FuncName(f)
-			okv := (mayWrite && writers[fnName]) || (!mayWrite && (readers[fnName] || writers[fnName]))
+			isReader := readers[fnName]
+			if !isReader {
+				g := f
+				for g.Parent() != nil {
+					g = g.Parent()
+				}
+				for rn := range readers {
+					if rf := funcByFullName(P, rn); rf != nil && P.OwnedBy(g, rf) {
+						isReader = true // a local helper cut out of a known reader
+					}
+				}
+				if false {
+					isReader = true // a local helper cut out of a known reader
+				}
+			}
+			okv := (mayWrite && writers[fnName]) || (!mayWrite && (isReader || writers[fnName]))
 			c.Check(okv, "C19.R3", "access:Server.cookieKey@"+fnName, P.InstrPos(ins), "known accessor", "Server.cookieKey is written (or exposed for writing) outside init and the rotation goroutine, or read by a new function")
 		})
 	}
@@ -932,4 +960,61 @@ func unitMismatch(P *Program, fn *ssa.Function) string {
 		return true
 	})
 	return res
+}
+
+
+// dispatcherOf: rp itself if it compares a value with at least three of the message-type constants,
+// otherwise the local helper of rp (at most two calls down) that does.
+func dispatcherOf(P *Program, rp *ssa.Function, consts []int64) *ssa.Function {
+	score := func(f *ssa.Function) int {
+		seen := map[int64]bool{}
+		eachInstr(f, func(ins ssa.Instruction) {
+			b, ok := ins.(*ssa.BinOp)
+			if !ok || b.Op != token.EQL {
+				return
+			}
+			for _, v := range []ssa.Value{b.X, b.Y} {
+				if n, isC := constInt(v); isC {
+					for _, k := range consts {
+						if n == k {
+							seen[k] = true
+						}
+					}
+				}
+			}
+		})
+		return len(seen)
+	}
+	if score(rp) >= 3 {
+		return rp
+	}
+	best := rp
+	var visit func(f *ssa.Function, depth int)
+	visit = func(f *ssa.Function, depth int) {
+		if depth > 2 {
+			return
+		}
+		eachInstr(f, func(ins ssa.Instruction) {
+			if call, ok := ins.(*ssa.Call); ok {
+				if g := staticCallee(&call.Call); g != nil && g != f && len(g.Blocks) > 0 && P.OwnedBy(g, rp) && g != rp {
+					if score(g) >= 3 && best == rp {
+						best = g
+					}
+					visit(g, depth+1)
+				}
+			}
+		})
+	}
+	visit(rp, 0)
+	return best
+}
+
+
+func funcByFullName(P *Program, full string) *ssa.Function {
+	for _, f := range P.ModuleFuncs("transport") {
+		if FuncName(f) == full {
+			return f
+		}
+	}
+	return nil
 }
